@@ -1,0 +1,149 @@
+//go:build verif
+
+package spz
+
+// Contracts for the deductive checks in /verif (comment-only; compiled only with -tags verif).
+// Property C15 (SPZ half): "Decoding an SPZ stream built to the published layout returns, for splat i,
+// exactly the dequantised values of record i with all attribute arrays of the declared length."
+// Property C14: success implies every declared byte was present in the stream.
+// stream(in, p) is the byte at absolute position p of the reader's stream, consumed(in) the read offset.
+
+//@ func Header.Float16Positions pure
+//@   props C15
+//@ func unquantizeSH pure
+//@   props C15
+//@ func halfToFloat pure
+//@   props C15
+
+//@ func Header.Validate
+//@   props C15 C14
+//@   returns err
+//@   ensures accepted_headers: err == nil ==> pgh.Magic == 0x5053474e && 1 <= pgh.Version && pgh.Version <= 2 && pgh.NumPoints <= 10000000 && pgh.ShDegree <= 3
+
+//@ func Header.ShDimensions
+//@   props C15
+//@   returns dim, err
+//@   ensures table: err == nil ==> (pgh.ShDegree == 0 && dim == 0) || (pgh.ShDegree == 1 && dim == 3) || (pgh.ShDegree == 2 && dim == 8) || (pgh.ShDegree == 3 && dim == 15)
+//@   ensures rejects: pgh.ShDegree > 3 ==> err != nil
+//@   ensures accepts: pgh.ShDegree <= 3 ==> err == nil
+
+//@ spec b(in io.Reader, base int, k int) float64 = real(stream(in, base + k))
+
+//@ func Header.readAlphas
+//@   props C15 C14
+//@   requires pgh.NumPoints <= 10000000
+//@   modifies ghost consumed
+//@   returns alphas, err
+//@   ensures length: err == nil ==> len(alphas) == pgh.NumPoints
+//@   ensures consumed_exactly: err == nil ==> consumed(in) == old(consumed(in)) + pgh.NumPoints && consumed(in) <= total(in)
+//@   ensures values: err == nil ==> forall i int :: 0 <= i && i < pgh.NumPoints ==> alphas[i] == b(in, old(consumed(in)), i) / 255.0
+//@   ensures nothing_on_failure: err != nil ==> len(alphas) == 0
+//@   loop 1:
+//@     invariant bounds: 0 <= i && i <= len(alphas) && len(alphas) == pgh.NumPoints && fresh(alphas) && off(alphas) == 0
+//@     invariant done: forall j int :: 0 <= j && j < i ==> alphas[j] == b(in, old(consumed(in)), j) / 255.0
+
+//@ func Header.readColors
+//@   props C15 C14
+//@   requires pgh.NumPoints <= 10000000
+//@   modifies ghost consumed
+//@   returns colors, err
+//@   ensures length: err == nil ==> len(colors) == pgh.NumPoints
+//@   ensures consumed_exactly: err == nil ==> consumed(in) == old(consumed(in)) + 3 * pgh.NumPoints && consumed(in) <= total(in)
+//@   ensures values: err == nil ==> forall i int :: 0 <= i && i < pgh.NumPoints ==>
+//@       colors[i].X() == (b(in, old(consumed(in)), 3*i) / 255.0 - 0.5) / 0.15 &&
+//@       colors[i].Y() == (b(in, old(consumed(in)), 3*i+1) / 255.0 - 0.5) / 0.15 &&
+//@       colors[i].Z() == (b(in, old(consumed(in)), 3*i+2) / 255.0 - 0.5) / 0.15
+//@   ensures nothing_on_failure: err != nil ==> len(colors) == 0
+//@   loop 1:
+//@     invariant bounds: 0 <= i && i <= len(colors) && len(colors) == pgh.NumPoints && fresh(colors) && off(colors) == 0
+//@     invariant done: forall j int :: 0 <= j && j < i ==>
+//@       colors[j].X() == (b(in, old(consumed(in)), 3*j) / 255.0 - 0.5) / 0.15 &&
+//@       colors[j].Y() == (b(in, old(consumed(in)), 3*j+1) / 255.0 - 0.5) / 0.15 &&
+//@       colors[j].Z() == (b(in, old(consumed(in)), 3*j+2) / 255.0 - 0.5) / 0.15
+
+//@ func Header.readScale
+//@   props C15 C14
+//@   requires pgh.NumPoints <= 10000000
+//@   modifies ghost consumed
+//@   returns scales, err
+//@   ensures length: err == nil ==> len(scales) == pgh.NumPoints
+//@   ensures consumed_exactly: err == nil ==> consumed(in) == old(consumed(in)) + 3 * pgh.NumPoints && consumed(in) <= total(in)
+//@   ensures values: err == nil ==> forall i int :: 0 <= i && i < pgh.NumPoints ==>
+//@       scales[i].X() == b(in, old(consumed(in)), 3*i) / 16.0 - 10.0 &&
+//@       scales[i].Y() == b(in, old(consumed(in)), 3*i+1) / 16.0 - 10.0 &&
+//@       scales[i].Z() == b(in, old(consumed(in)), 3*i+2) / 16.0 - 10.0
+//@   ensures nothing_on_failure: err != nil ==> len(scales) == 0
+//@   loop 1:
+//@     invariant bounds: 0 <= i && i <= len(scales) && len(scales) == pgh.NumPoints && fresh(scales) && off(scales) == 0
+//@     invariant done: forall j int :: 0 <= j && j < i ==>
+//@       scales[j].X() == b(in, old(consumed(in)), 3*j) / 16.0 - 10.0 &&
+//@       scales[j].Y() == b(in, old(consumed(in)), 3*j+1) / 16.0 - 10.0 &&
+//@       scales[j].Z() == b(in, old(consumed(in)), 3*j+2) / 16.0 - 10.0
+
+// rotation record: three bytes -> xyz = b/127.5 - 1, w = sqrt(max(0, 1 - |xyz|^2)) (non-negative real part of a unit quaternion)
+//@ spec rq(x float64) float64 = x * (1.0 / 127.5) - 1.0
+//@ spec rotW(x float64, y float64, z float64) float64 = sqrt(max(0.0, 1.0 - vector3.New(x, y, z).Dot(vector3.New(x, y, z))))
+//@ spec rotOf(b0 float64, b1 float64, b2 float64) vector4.Float64 = vector4.New(rq(b0), rq(b1), rq(b2), rotW(rq(b0), rq(b1), rq(b2)))
+//@ lemma rotation_record_meaning(b0 float64, b1 float64, b2 float64)
+//@   props C15
+//@   ensures xyz: rotOf(b0, b1, b2).X() == b0 * (1.0 / 127.5) - 1.0 && rotOf(b0, b1, b2).Y() == b1 * (1.0 / 127.5) - 1.0 && rotOf(b0, b1, b2).Z() == b2 * (1.0 / 127.5) - 1.0
+//@   ensures w_nonnegative: rotOf(b0, b1, b2).W() >= 0
+//@   ensures w_completes_unit_quaternion: rotOf(b0, b1, b2).W() * rotOf(b0, b1, b2).W() == max(0.0, 1.0 - rq(b0)*rq(b0) - rq(b1)*rq(b1) - rq(b2)*rq(b2))
+//@ func Header.readRotations
+//@   props C15 C14
+//@   requires pgh.NumPoints <= 10000000
+//@   modifies ghost consumed
+//@   returns rotations, err
+//@   ensures length: err == nil ==> len(rotations) == pgh.NumPoints
+//@   ensures consumed_exactly: err == nil ==> consumed(in) == old(consumed(in)) + 3 * pgh.NumPoints && consumed(in) <= total(in)
+//@   ensures records: err == nil ==> forall i int :: 0 <= i && i < pgh.NumPoints ==>
+//@       rotations[i] == rotOf(b(in, old(consumed(in)), 3*i), b(in, old(consumed(in)), 3*i+1), b(in, old(consumed(in)), 3*i+2))
+//@   ensures nothing_on_failure: err != nil ==> len(rotations) == 0
+//@   loop 1:
+//@     invariant bounds: 0 <= i && i <= len(rotations) && len(rotations) == pgh.NumPoints && fresh(rotations) && off(rotations) == 0
+//@     invariant records: forall j int :: 0 <= j && j < i ==>
+//@       rotations[j] == rotOf(b(in, old(consumed(in)), 3*j), b(in, old(consumed(in)), 3*j+1), b(in, old(consumed(in)), 3*j+2))
+
+// 24-bit little-endian two's complement fixed point
+//@ spec u24(in io.Reader, base int, k int) int = stream(in, base + k) + 256 * stream(in, base + k + 1) + 65536 * stream(in, base + k + 2)
+//@ spec sext24(x int) int = (x < 8388608) ? x : x - 16777216
+//@ spec fixedVec(x int, y int, z int, fb int) vector3.Float64 = vector3.New(real(x), real(y), real(z)).Scale(1.0 / real(pow2(fb)))
+//@ spec s24(in io.Reader, base int, k int) int = sext24(u24(in, base, k))
+//@ lemma fixedVec_is_value_over_two_to_fractional_bits(x int, y int, z int, fb int)
+//@   props C15
+//@   ensures fixedVec(x, y, z, fb).X() == real(x) * (1.0 / real(pow2(fb))) && fixedVec(x, y, z, fb).Y() == real(y) * (1.0 / real(pow2(fb))) && fixedVec(x, y, z, fb).Z() == real(z) * (1.0 / real(pow2(fb)))
+//@ lemma sext24_is_twos_complement(x int)
+//@   props C15
+//@   requires 0 <= x && x < 16777216
+//@   ensures 0 - 8388608 <= sext24(x) && sext24(x) < 8388608 && mod(sext24(x) - x, 16777216) == 0
+
+//@ func Header.readPositions
+//@   props C15 C14
+//@   requires pgh.NumPoints <= 10000000
+//@   modifies ghost consumed, ghost lastSlice
+//@   returns positions, err
+//@   ensures length: err == nil ==> len(positions) == pgh.NumPoints
+//@   ensures consumed_exactly: err == nil ==> consumed(in) == old(consumed(in)) + ((pgh.Version == 1) ? 6 : 9) * pgh.NumPoints && consumed(in) <= total(in)
+//@   ensures fixed_point_24bit: err == nil && pgh.Version != 1 ==> forall i int :: 0 <= i && i < pgh.NumPoints ==>
+//@       positions[i] == fixedVec(s24(in, old(consumed(in)), 9*i), s24(in, old(consumed(in)), 9*i+3), s24(in, old(consumed(in)), 9*i+6), pgh.FractionalBits)
+//@   ensures nothing_on_failure: err != nil ==> len(positions) == 0
+//@   loop 1:
+//@     invariant bounds: 0 <= i && i <= len(positions) && len(positions) == pgh.NumPoints && fresh(positions) && off(positions) == 0
+//@     invariant done: forall j int :: 0 <= j && j < i ==>
+//@       positions[j] == fixedVec(s24(in, old(consumed(in)), 9*j), s24(in, old(consumed(in)), 9*j+3), s24(in, old(consumed(in)), 9*j+6), pgh.FractionalBits)
+
+//@ spec halves(in io.Reader) []uint16 = lastSlice(in)
+//@ func Header.readPositionsFloat16
+//@   props C15 C14
+//@   requires pgh.NumPoints <= 10000000
+//@   modifies ghost consumed, ghost lastSlice
+//@   returns positions, err
+//@   ensures length: err == nil ==> len(positions) == pgh.NumPoints
+//@   ensures consumed_exactly: err == nil ==> consumed(in) == old(consumed(in)) + 6 * pgh.NumPoints && consumed(in) <= total(in)
+//@   ensures half_floats: err == nil ==> len(halves(in)) == 3 * pgh.NumPoints && forall i int :: 0 <= i && i < pgh.NumPoints ==>
+//@       positions[i].X() == halfToFloat(halves(in)[3*i]) && positions[i].Y() == halfToFloat(halves(in)[3*i+1]) && positions[i].Z() == halfToFloat(halves(in)[3*i+2])
+//@   ensures nothing_on_failure: err != nil ==> len(positions) == 0
+//@   loop 1:
+//@     invariant bounds: 0 <= i && i <= len(positions) && len(positions) == pgh.NumPoints && fresh(positions) && off(positions) == 0 && positionData == halves(in) && len(positionData) == 3 * pgh.NumPoints
+//@     invariant done: forall j int :: 0 <= j && j < i ==>
+//@       positions[j].X() == halfToFloat(positionData[3*j]) && positions[j].Y() == halfToFloat(positionData[3*j+1]) && positions[j].Z() == halfToFloat(positionData[3*j+2])
